@@ -86,7 +86,11 @@ func writeReplay(root, dir, prop string, r *OblResult, cfg *PropConfig) (string,
 		if err != nil || !re.MatchString(r.ID) {
 			continue
 		}
-		for _, inst := range rf.Instances {
+		insts := rf.Instances
+		if len(insts) == 0 {
+			insts = []ReplayInstance{{}} // no solver model (e.g. an obligation that is no longer generated): the driver runs with its defaults
+		}
+		for _, inst := range insts {
 			run := runReplay(root, rule, re.FindStringSubmatch(r.ID), inst)
 			if run == nil {
 				continue
